@@ -247,7 +247,10 @@ func c18RunW(calls []c18Call, wk [2]int) []string {
 	hit := 0
 	for guardN := 0; guardN < len(bps)+2; guardN++ {
 		var err error
-		if p := guard(func() { err = cpu.Run(bgCtx) }); p != nil {
+		done := c08Watch(func() string { return "Run of a tinycpm machine (BDOS call sequence; the program ends with JP 0 or a breakpoint)" })
+		p := guard(func() { err = cpu.Run(bgCtx) })
+		done()
+		if p != nil {
 			if wp, ok := p.(watchdogPanic); ok {
 				if fw, isFull := out.(*c18Full); isFull && fw.n > 100000 {
 					return []string{fmt.Sprintf("the console writer answers every Write with (0, io.ErrShortWrite); the console device called it %d times for one character and the run never got on (PC=%04X)", fw.n, cpu.PC)}
